@@ -132,8 +132,48 @@ def impl_shared_config(c):
     return {"flows": out}
 
 
+def rp_extra_cases():
+    out = []
+    # a provider known by its discovery document only, whose issuer identifier ends in "/" (or not): the ID Token's iss is compared with it as published
+    for fw in ("flask", "django"):
+        for iss in ("https://op.example/", "https://op.example", "https://op.example/tenant/"):
+            for tok_iss in ("same", "toggled-slash"):
+                out.append({"op": "rp_discovery", "fw": fw, "issuer": iss, "tok_iss": tok_iss})
+    # the relying party's key resolver has no key for the token's kid (answers None); the token carries its forger's key in a jwk header
+    for cls in ("CodeIDToken", "ImplicitIDToken", "HybridIDToken"):
+        for alg in ("HS256", "RS256", "ES256"):
+            for with_jwk in (True, False):
+                out.append({"op": "rp_resolver_none", "cls": cls, "alg": alg, "with_jwk": with_jwk})
+    return out
+
+
+def impl_rp_extra(c):
+    import rpclient as rc
+    from authlib.jose import jwt as _jwt, JsonWebKey, OctKey
+    ms.install_clock()
+    now = int(CLOCK())
+    if c["op"] == "rp_discovery":
+        iss = c["issuer"]
+        tiss = iss if c["tok_iss"] == "same" else (iss[:-1] if iss.endswith("/") else iss + "/")
+        tok = rc.id_token({"iss": tiss, "sub": "u", "aud": "cid", "exp": now + 600, "iat": now, "nonce": "n"})
+        r = rc.parse(c["fw"], {"id_token": tok, "access_token": "at"}, "n", issuer=iss, discovery=True)
+        return {"accepted": bool(r.get("accepted")), "error": r.get("error") or r.get("raised")}
+    from authlib.oidc.core import claims as oc
+    k = OctKey.import_key(b"f" * 32) if c["alg"] == "HS256" else JsonWebKey.generate_key({"RS256": "RSA", "ES256": "EC"}[c["alg"]], {"RS256": 2048, "ES256": "P-256"}[c["alg"]], is_private=True)
+    hdr = {"alg": c["alg"], "kid": "no-such-kid"}
+    if c["with_jwk"]:
+        hdr["jwk"] = dict(k.as_dict(is_private=(c["alg"] == "HS256")))
+    tok = _jwt.encode(hdr, {"iss": "https://op", "sub": "u", "aud": "cid", "exp": now + 600, "iat": now, "nonce": "n"}, k)
+    try:
+        cl = _jwt.decode(tok, lambda h, p: None, claims_cls=getattr(oc, c["cls"]), claims_params={"nonce": "n", "client_id": "cid"})
+        cl.validate(now=now)
+        return {"accepted": True}
+    except Exception as e:
+        return {"accepted": False, "error": type(e).__name__}
+
+
 def cases(rng, tier):
-    return _cases(rng, tier) + rp_cases() + rp_callback_cases() + shared_config_cases()
+    return _cases(rng, tier) + rp_cases() + rp_callback_cases() + shared_config_cases() + rp_extra_cases()
 
 
 def _cases(rng, tier):
@@ -245,6 +285,8 @@ def issue(rt, alg, nonce="n-0S6_WzA2Mj", token_nonce=None):
 
 
 def impl(c):
+    if c["op"] in ("rp_discovery", "rp_resolver_none"):
+        return impl_rp_extra(c)
     if c["op"] == "shared_config":
         return impl_shared_config(c)
     if c["op"] == "rp_integration":
@@ -339,7 +381,7 @@ def enc(v):
 
 def model_line(c):
     op = c["op"]
-    if op in ("rp_callback", "shared_config"):
+    if op in ("rp_callback", "shared_config", "rp_discovery", "rp_resolver_none"):
         return None
     if op == "rp_integration":
         if c["pert"] == "other-key":
@@ -404,6 +446,17 @@ def oracle(c, out):
     op = c["op"]
     def bad(what, **sig):
         v.append((what, dict(sig, op=op)))
+    if op == "rp_discovery":
+        want = c["tok_iss"] == "same"
+        if out["accepted"] != want:
+            bad(f"[{c['fw']} client] provider registered by discovery with issuer {c['issuer']!r}: an ID Token whose iss is {'that issuer' if want else 'that issuer with the trailing slash toggled'} "
+                f"was {'accepted' if out['accepted'] else 'refused (' + str(out['error']) + ')'}", kind="rp-issuer", detail="accepted" if out["accepted"] else "refused")
+        return v
+    if op == "rp_resolver_none":
+        if out["accepted"]:
+            bad(f"relying party: {c['cls']} / {c['alg']} ID Token signed by an unknown key{' shipped in its own jwk header' if c['with_jwk'] else ''} was accepted although the key resolver has no key for it",
+                kind="rp-key", detail="resolver-none")
+        return v
     if op == "shared_config":
         for i, f in enumerate(out["flows"]):
             for side in ("front", "back"):
@@ -501,6 +554,8 @@ def classify(c, out):
         return f"rp_callback/{c['fw']}/{out.get('id_token')}"
     if c["op"] == "shared_config":
         return f"shared_config/{c['first']}"
+    if c["op"] in ("rp_discovery", "rp_resolver_none"):
+        return c["op"] + "/" + ("accepted" if out.get("accepted") else "refused")
     if c["op"] == "e2e":
         return f"e2e/{c['rt']}/{c['pert']}/" + ("ok" if "ok" in out else out.get("err", out.get("provider_error", "raised")))
     return c["op"]
